@@ -415,8 +415,107 @@ def r_disarm(prog, R):
         r.ok("SUPPORTED asserted whenever a server cookie arrives", f.loc(sel))
 
 
+def r_timer(prog, R):
+    import evalx
+    r = R.rule("R-C17-TIMER", "the regression period is counted from the first cookie-less reply: a timestamp is 'set' exactly when it is not all zero, the start is "
+               "recorded only while no start is recorded, a response COOKIE option is accepted only with a possible length (8, or 16..40), and the local "
+               "address that keys the client cookie is read after the socket is connected", floor=4,
+               analysis="exact evaluation of the predicate / length filter over a finite domain + exact guard + must-precede")
+    # (1) timeval_is_set
+    f = prog.func("timeval_is_set", file="src/lib/ares_cookie.c")
+    tv = f.params[0]["n"]
+    k = "timeval_is_set(tv) <=> tv != {0,0}"
+    bad = None
+    try:
+        for sec in (0, 5):
+            for usec in (0, 7):
+                kind, el = evalx.run_cfg(f, {"%s->sec" % tv: sec, "%s->usec" % tv: usec})
+                if kind != "ret":
+                    raise evalx.Unknown("no return reached")
+                got = name_of_const(el.get("e")) in ("ARES_TRUE",) or const_val(el.get("e")) == 1
+                want = (sec != 0 or usec != 0)
+                if got != want:
+                    bad = (sec, usec, got)
+        if bad:
+            r.viol(k, f.name, f.loc(f.ln), "timeval_is_set() reports %s for {sec=%d, usec=%d}: a timestamp taken on a second boundary (or from a coarse clock) looks unset, so the start of the regression period is not recorded and the period does not end" % (
+                "set" if bad[2] else "unset", bad[0], bad[1]))
+        else:
+            r.ok(k, f.loc(f.ln))
+    except evalx.Unknown as e:
+        r.broke("timeval_is_set not interpretable: %s" % e)
+    # (2) start recorded only when none is
+    v = prog.func("ares_cookie_validate")
+    mf = MustFacts(v, track_calls=False)
+    n = 0
+    for b, i, c in v.calls_to("memcpy"):
+        a0 = call_arg(c, 0)
+        if not any(nd.get("k") == "mem" and nd["f"] == "unsupported_ts" for nd in walk(a0)) or not is_var(strip(call_arg(c, 1))):
+            continue
+        if not any(p3 and "ARES_COOKIE_SUPPORTED" in render(c3) and norm_cmp(c3, p3)[0] == "==" for c3, p3 in mf.cond_facts_at(b, i)):
+            continue          # the UNSUPPORTED period starts from a cleared state: unconditional by design
+        n += 1
+        k = "regression start recorded only while none is recorded"
+        unset = False
+        for c3, p3 in mf.cond_facts_at(b, i):
+            cs = strip(c3)
+            if cs is not None and cs.get("k") == "call":
+                full = v.call_by_id(cs["id"]) if cs.get("ref") else None
+                cn = full[2] if full else cs
+                if cn.get("callee") == "timeval_is_set" and not p3 and any(nd.get("k") == "mem" and nd["f"] == "unsupported_ts" for nd in walk(cn["args"][0])):
+                    unset = True
+        if unset:
+            r.ok(k, v.loc(c["ln"]))
+        else:
+            r.viol(k, v.name, v.loc(c["ln"]), "unsupported_ts is overwritten with the current time without '!timeval_is_set(&cookie->unsupported_ts)': every dropped cookie-less reply restarts the regression period, so a server that lost cookie support stays unusable as long as queries keep arriving")
+    r.require(n >= 1, "ares_cookie_validate: recording of the regression start not found")
+    # (3) accepted response cookie lengths
+    start = None
+    for b, i, el in v.elements():
+        if el["k"] == "asg" and is_var(strip(el["e"]["l"]), "resp_cookie"):
+            start = b
+    k = "response COOKIE option accepted only with length 8 or 16..40"
+    if r.require(start is not None, "ares_cookie_validate: resp_cookie fetch not found"):
+        try:
+            wrong = []
+            nxt = [x for x in start.succs if x is not None]
+            # run from the block that holds the fetch (elements are calls/assignments of names outside env except the two)
+            for ln_ in range(0, 64):
+                env = {"resp_cookie": 1, "resp_cookie_len": ln_}
+                bid = start.id
+                # skip the defining block's own elements by starting at its branch: emulate with run_cfg on successors
+                br = v.branch(start)
+                if br:
+                    val = evalx.ev(evalx._leafify(strip(br[0])), env)
+                    bid = br[1] if val else br[2]
+                else:
+                    bid = nxt[0]
+                kind, x = evalx.run_cfg(v, env, start=bid)
+                rejected = (kind == "ret" and name_of_const(x.get("e")) == "ARES_EBADRESP")
+                valid = (ln_ == 8) or (16 <= ln_ <= 40)
+                if rejected == valid:
+                    wrong.append(ln_)
+            if wrong:
+                r.viol(k, v.name, v.loc(start.els[-1] if start.els else v.ln), "response COOKIE options of length %s are %s: RFC 7873 allows the 8 octet client cookie alone or followed by a server cookie of 8..32 octets; a shorter 'server cookie' must not prove cookie support or be echoed" % (
+                    ", ".join(str(x) for x in wrong[:10]), "accepted" if not ((wrong[0] == 8) or (16 <= wrong[0] <= 40)) else "rejected"))
+            else:
+                r.ok(k, v.loc(v.ln))
+        except evalx.Unknown as e:
+            r.broke("cookie length filter not interpretable: %s" % e)
+    # (4) self ip after connect
+    oc = prog.func("ares_open_connection")
+    mfo = MustFacts(oc, track_calls=True)
+    cs = oc.calls_to("ares_conn_set_self_ip")
+    if r.require(bool(cs), "ares_open_connection: ares_conn_set_self_ip call not found"):
+        for b, i, c in cs:
+            k = "local address read after the socket is connected"
+            if mfo.passed_call(b, i, "ares_conn_connect"):
+                r.ok(k, oc.loc(c["ln"]))
+            else:
+                r.viol(k, oc.name, oc.loc(c["ln"]), "ares_conn_set_self_ip runs before ares_conn_connect: an unconnected UDP socket reports the wildcard address, so a change of the source address is never noticed and the same client cookie (and the old server cookie) go out from the new address")
+
+
 def run(prog, R, tier):
-    R.assume("timeval_expired/timeval_is_set compute what their names say (numeric behaviour not decided)")
+    R.assume("timeval_expired computes what its name says (numeric behaviour over real time not decided)")
     r_fsm(prog, R)
     r_tcp(prog, R)
     r_accept(prog, R)
@@ -425,4 +524,5 @@ def run(prog, R, tier):
     r_const(prog, R)
     r_gateorder(prog, R)
     r_disarm(prog, R)
+    r_timer(prog, R)
     C06.r_resend(prog, R, rid="R-C17-RESEND")
